@@ -256,7 +256,7 @@ func sysVariantRun(v sysVariant, g *hx.Gen, sz *sizer, dist map[string]int) (cas
 	}
 
 	name := fmt.Sprintf("c03v%d", v.id)
-	var target *net.UDPAddr
+	var target, target2 *net.UDPAddr
 	var proxies []v1.ProxyConfigurer
 	var visitors []v1.VisitorConfigurer
 	if !v.sudp {
@@ -282,6 +282,26 @@ func sysVariantRun(v sysVariant, g *hx.Gen, sz *sizer, dist map[string]int) (cas
 		vc.Transport.UseEncryption, vc.Transport.UseCompression = v.enc, v.comp
 		visitors = append(visitors, vc)
 		target = &net.UDPAddr{IP: net.ParseIP(vc.BindAddr), Port: vc.BindPort}
+		// a second visitor of the same proxy (user 2 talks to it): two visitor / work connections are alive
+		// at the same time in this frpc, each with its own wrappers and its own Forwarder
+		vc2 := &v1.SUDPVisitorConfig{}
+		vc2.Name, vc2.Type = name+"-visitor2", "sudp"
+		vc2.ServerName, vc2.SecretKey = name, "k3y"
+		vc2.BindAddr = fmt.Sprintf("127.0.3.%d", 70+v.id)
+		vc2.BindPort = hx.FreeUDPPort(vc2.BindAddr)
+		vc2.Transport.UseEncryption, vc2.Transport.UseCompression = v.enc, v.comp
+		visitors = append(visitors, vc2)
+		target2 = &net.UDPAddr{IP: net.ParseIP(vc2.BindAddr), Port: vc2.BindPort}
+	}
+	// where user u sends its datagrams
+	dest := func(u int) *net.UDPAddr {
+		if target2 != nil && u == 2 {
+			return target2
+		}
+		return target
+	}
+	sendOne := func(sends []send, i int) {
+		_, _ = w.users[sends[i].user].WriteToUDP(sends[i].data, dest(sends[i].user))
 	}
 	c, err := s.StartClient(proxies, visitors, mutate)
 	if err != nil {
@@ -296,29 +316,58 @@ func sysVariantRun(v sysVariant, g *hx.Gen, sz *sizer, dist map[string]int) (cas
 	// user 0 every 100 ms until one of them is answered; then the outstanding ones drain
 	pingUntilReply := func(timeout time.Duration) bool {
 		deadline := time.Now().Add(timeout)
-		var mine []int
-		answered := func() int {
+		pingers := []int{0}
+		if target2 != nil {
+			pingers = append(pingers, 2)
+		}
+		mine := map[int][]int{}
+		answered := func(u int) int {
 			w.mu.Lock()
 			defer w.mu.Unlock()
 			n := 0
-			for _, i := range mine {
+			for _, i := range mine[u] {
 				if w.rpSeen[i] > 0 {
 					n++
 				}
 			}
 			return n
 		}
+		allUp := func() bool {
+			for _, u := range pingers {
+				if answered(u) == 0 {
+					return false
+				}
+			}
+			return true
+		}
 		for time.Now().Before(deadline) {
-			sends = append(sends, send{0, 1, mkPayload(g, 0, len(sends), 8+g.Intn(24))})
-			mine = append(mine, len(sends)-1)
-			w.sendBurst(sends, len(sends)-1, target)
-			if waitUntil(100*time.Millisecond, func() bool { return answered() > 0 }) {
-				last, lastAt := answered(), time.Now()
-				for answered() < len(mine) && time.Since(lastAt) < 150*time.Millisecond {
-					time.Sleep(pollEvery)
-					if n := answered(); n != last {
+			for _, u := range pingers {
+				if answered(u) > 0 {
+					continue
+				}
+				sends = append(sends, send{u, 1, mkPayload(g, u, len(sends), 8+g.Intn(24))})
+				mine[u] = append(mine[u], len(sends)-1)
+				sendOne(sends, len(sends)-1)
+			}
+			if waitUntil(100*time.Millisecond, allUp) {
+				total := func() (n, m int) {
+					for _, u := range pingers {
+						n += answered(u)
+						m += len(mine[u])
+					}
+					return
+				}
+				last, _ := total()
+				lastAt := time.Now()
+				for time.Since(lastAt) < 150*time.Millisecond {
+					n, m := total()
+					if n >= m {
+						break
+					}
+					if n != last {
 						last, lastAt = n, time.Now()
 					}
+					time.Sleep(pollEvery)
 				}
 				return true
 			}
@@ -334,7 +383,11 @@ func sysVariantRun(v sysVariant, g *hx.Gen, sz *sizer, dist map[string]int) (cas
 			sends = append(sends, send{u, phase, mkPayload(g, u, len(sends), size)})
 			hx.CountBy(dist, "sys datagram size "+sizeBucket(size))
 		}
-		idxs := w.sendBurst(sends, from, target)
+		var idxs []int
+		for i := from; i < len(sends); i++ {
+			sendOne(sends, i)
+			idxs = append(idxs, i)
+		}
 		return waitUntil(arriveWait, func() bool { return w.allDone(idxs) })
 	}
 	finish := func(replaced bool) {
@@ -379,7 +432,7 @@ func sysVariantRun(v sysVariant, g *hx.Gen, sz *sizer, dist map[string]int) (cas
 		for i := 0; i < n1; i++ {
 			u := g.Intn(nusers)
 			sends = append(sends, send{u, 1, mkPayload(g, u, len(sends), sz.next())})
-			w.sendBurst(sends, len(sends)-1, target)
+			sendOne(sends, len(sends)-1)
 			time.Sleep(20 * time.Millisecond)
 		}
 		t0 := time.Now()
